@@ -11,6 +11,11 @@ fn out(found: bool, input: serde_json::Value, observed: String, expected: String
     let v = serde_json::json!({"found": found, "input": input, "observed": observed, "expected": expected, "cases": cases});
     std::fs::File::create(p).unwrap().write_all(v.to_string().as_bytes()).unwrap();
 }
+fn progress(input: &serde_json::Value) {
+    if let Ok(p) = std::env::var("VERIF_REPLAY_OUT") {
+        let _ = std::fs::write(p.replace("verif_replay_out.json", "verif_replay_progress.json"), serde_json::json!({"input": input}).to_string());
+    }
+}
 fn case(m: u32, seq: &[u64], perm: &[u64]) -> Option<(String, String)> {
     let mut h = ProbOrdMinHash2::<FnvHasher>::new(m, 1);
     let a = h.hash_set(seq);
@@ -53,6 +58,7 @@ fn verif_replay_c11() {
         let mut r = seq.clone(); for i in (1..n).rev() { let j = (rnd() % (i as u64 + 1)) as usize; r.swap(i, j); } perms.push(r);
         for p in perms {
             cases += 1;
+            progress(&serde_json::json!({"m": m, "sequence": seq, "permuted": p}));
             if let Some((o, e)) = case(m, &seq, &p) { out(true, serde_json::json!({"m": m, "sequence": seq, "permuted": p}), o, e, cases); return; }
         }
     }
